@@ -11,8 +11,14 @@ Driver.  Runs the REAL ``mesonbuild.mformat.Formatter(...).format(text, path)`` 
       auto-discovery, -e, CRLF/CR files;
 while vf.monitors.c16_contracts (oracle: the independent reader vf.ref.refmeson) judges every run:
   output parses (real parser and reference parser); same tree modulo exactly the documented simplifications; same
-  comments in the same order; format(format(x)) == format(x); CLI exit status / written bytes as documented.
-Workers return counts and first witnesses only.
+  comments in the same order; format(format(x)) == format(x); two documented option effects (insert_final_newline; a
+  triple-quoted literal holding a newline is not made a plain one); max_line_length splitting on unambiguous probes;
+  CLI: exit status of -q/-d == "--inplace would change the file's bytes", bytes written by -i/-o, stdout, recursion.
+A violation gets a mechanism key from a classifier: structural ones in c16_contracts, and for verdicts that only say
+which contract failed, DIFFERENTIAL classifiers here (re-run the real formatter on the input with one suspected root
+cause removed; attribute what vanishes).  Unattributed verdicts are minimised (ddmin) and reported as they are.
+Workers return counts and first witnesses only.  VERIF_C16_BUDGET=<seconds> overrides the wall-clock budget of the
+generated-program workload (development aid on an overloaded machine).
 """
 from __future__ import annotations
 
@@ -44,7 +50,8 @@ GENERIC_PREFIXES = ('non-idempotent-layout', 'non-idempotent-indentation', 'non-
                     'comments-reordered', 'comment-text-altered', 'comment-added', 'output-unparseable',
                     'output-rejected-by-reference-parser-only', 'tree-changed:', 'second-pass-changes-tree:',
                     'call-arguments-changed', 'method-arguments-changed', 'string-value-changed', 'files-call-changed',
-                    'non-idempotent-and-second-output-unparseable', 'formatter-exception', 'files-call-changed-on-second-pass')
+                    'non-idempotent-and-second-output-unparseable', 'formatter-exception', 'files-call-changed-on-second-pass',
+                    'multiline-string-with-newline-made-plain', 'final-newline-missing')
 
 
 def is_generic(m: str) -> bool:
@@ -57,14 +64,19 @@ def is_generic(m: str) -> bool:
 class Env:
     """Scratch tree: one directory per configuration with meson.format (+ .editorconfig); nothing else."""
 
-    def __init__(self, root: str, cfgs: T.Sequence[T.Dict[str, T.Any]], rng: random.Random) -> None:
+    def __init__(self, root: str, cfgs: T.Sequence[T.Dict[str, T.Any]], rng: random.Random,
+                 written_keys: T.Optional[T.Sequence[T.Optional[T.Sequence[str]]]] = None) -> None:
         self.root = root
         self.cfgs = list(cfgs)
         self.entries: T.List[T.Dict[str, T.Any]] = []
         for i, c in enumerate(self.cfgs):
             d = os.path.join(root, f'cfg{i}')
             os.makedirs(d, exist_ok=True)
+            # which keys are spelled out in meson.format matters when an .editorconfig is in play (file keys win over
+            # editorconfig keys, which win over defaults): keys with default values are written with probability 0.3
             written = {k: v for k, v in c.items() if k in ('editorconfig', 'ec_via_key') or v != G.DEFAULT_CONFIG[k] or rng.random() < 0.3}
+            if written_keys is not None and written_keys[i] is not None:
+                written = {k: c[k] for k in written_keys[i]}       # replay: exactly the recorded file
             cfgfile: T.Optional[str] = None
             if i > 0 or rng.random() < 0.0:
                 cfgfile = os.path.join(d, 'meson.format')
@@ -77,7 +89,7 @@ class Env:
             else:
                 # stop the upward search for .editorconfig files at the scratch directory
                 pass
-            self.entries.append({'dir': d, 'cfgfile': cfgfile, 'src': os.path.join(d, 'meson.build'),
+            self.entries.append({'dir': d, 'cfgfile': cfgfile, 'src': os.path.join(d, 'meson.build'), 'written': sorted(written),
                                  'use_ec': ec is not None and not c.get('ec_via_key')})
 
 
@@ -136,12 +148,6 @@ def formatter(ci: int, override: T.Optional[T.Tuple[T.Tuple[str, T.Any], ...]] =
     return f
 
 
-def effective(cfg: T.Mapping[str, T.Any]) -> T.Dict[str, T.Any]:
-    """What the oracle needs to know about a configuration (only keys a meson.format file can set matter)."""
-    return {'sort_files': bool(cfg.get('sort_files')), 'simplify_string_literals': bool(cfg.get('simplify_string_literals', True)),
-            'no_single_comma_function': bool(cfg.get('no_single_comma_function'))}
-
-
 def run_real(text: str, ci: int, counts: T.Dict[str, int], override: T.Optional[T.Tuple[T.Tuple[str, T.Any], ...]] = None
              ) -> T.Tuple[T.Optional[str], T.Optional[str], T.Optional[str], T.Optional[str], T.Optional[str]]:
     """(out, out2, exc, exc2, real_parse_error) of the real formatter / parser."""
@@ -194,6 +200,42 @@ def t_foreign(text: str, cfg: T.Mapping[str, T.Any]) -> str:
     return ''.join(out) if changed else text
 
 
+def t_mlbackslash(text: str, cfg: T.Mapping[str, T.Any]) -> str:
+    """triple-quoted literals the formatter would simplify (no newline, no quote) and that hold a backslash: replace the
+    backslashes by '/' (the rewritten literal '...' would re-read them as escapes; one at the end even swallows the
+    closing quote, after which the rest of the file lexes differently)"""
+    if not cfg.get('simplify_string_literals', True):
+        return text
+    out = []
+    changed = False
+    for t in R.tokenize(text, trivia=True):
+        s = t.text
+        if t.kind in ('mstring', 'mfstring') and '\\' in t.value and '\n' not in t.value and "'" not in t.value:
+            s = s.replace('\\', '/')
+            changed = True
+        out.append(s)
+    return ''.join(out) if changed else text
+
+
+def t_trailing_cont(text: str, cfg: T.Mapping[str, T.Any]) -> str:
+    """remove a backslash-newline continuation that ends a statement (only blanks / a line end / the end of file follow)"""
+    toks = R.tokenize(text, trivia=True)
+    out = []
+    changed = False
+    n = len(toks)
+    for i, t in enumerate(toks):
+        s = t.text
+        if t.kind == 'cont' and '#' not in s:
+            j = i + 1
+            while j < n and toks[j].kind == 'ws':
+                j += 1
+            if j >= n or toks[j].kind in ('eol', 'eof'):
+                s = ''
+                changed = True
+        out.append(s)
+    return ''.join(out) if changed else text
+
+
 def t_files(text: str, cfg: T.Mapping[str, T.Any]) -> str:
     """rename the function files() so that the formatter's files() special-casing (flattening, sorting) is off"""
     toks = R.tokenize(text, trivia=True)
@@ -241,7 +283,7 @@ def t_single_comma(text: str, cfg: T.Mapping[str, T.Any]) -> T.Tuple[str, T.Opti
     return text, (('no_single_comma_function', False),)
 
 
-def files_mechanism(text: str, cfg: T.Mapping[str, T.Any], contracts: T.Set[str]) -> str:
+def files_mechanism(text: str, cfg: T.Mapping[str, T.Any], contracts: T.Set[str]) -> T.List[str]:
     """Sub-classification once a verdict has been attributed to the files() special-casing."""
     names = []
     try:
@@ -278,8 +320,9 @@ def files_mechanism(text: str, cfg: T.Mapping[str, T.Any], contracts: T.Set[str]
             if len(items) >= 2:
                 sorting = True
     _, in_files, after_array = C.comment_sites(text)
-    if 'same-comments' in contracts:
-        names.append('files-flattening-drops-comment-after-array' if in_files else 'files-special-casing-changes-comments')
+    # only the listed shapes are attributed; anything else stays with its generic name (and other classifiers get their turn)
+    if 'same-comments' in contracts and in_files:
+        names.append('files-flattening-drops-comment-after-array')
     if 'idempotent' in contracts:
         if nested:
             names.append('files-nested-array-flattened-one-level-per-pass')
@@ -287,23 +330,53 @@ def files_mechanism(text: str, cfg: T.Mapping[str, T.Any], contracts: T.Set[str]
             names.append('files-array-sorted-only-on-second-pass')
         elif trivia_only:
             names.append('files-trivia-only-array-flattened-on-later-pass')
-        else:
-            names.append('files-special-casing-non-idempotent')
-    if contracts - {'same-comments', 'idempotent'}:
-        names.append('files-special-casing-' + '-'.join(sorted(contracts - {'same-comments', 'idempotent'})))
-    return '+'.join(names)
+    return names
 
 
 DIFFERENTIAL: T.Tuple[T.Tuple[T.Callable[[str, T.Mapping[str, T.Any]], T.Any], T.Any], ...] = (
     (t_foreign, 'comment-split-at-non-lf-line-boundary'),
+    (t_mlbackslash, 'multiline-string-simplified-changes-escapes'),
     (t_files, files_mechanism),
     (t_single_comma, 'single-argument-call-relayouted-on-second-pass'),
     (t_cont_after_open, 'continuation-after-open-bracket-relayouted-on-second-pass'),
+    (t_trailing_cont, 'continuation-at-end-of-statement-gains-a-line-per-pass'),
 )
 
 
+Override = T.Optional[T.Tuple[T.Tuple[str, T.Any], ...]]
+
+
+def _apply(transforms: T.Sequence[T.Tuple[T.Any, T.Any]], text: str, cfg: T.Mapping[str, T.Any], override: Override
+           ) -> T.Tuple[str, Override, T.List[T.Tuple[T.Any, T.Any]]]:
+    """Apply the differential transformations one after the other; returns (text, configuration override, the ones that
+    changed something)."""
+    used = []
+    ov = dict(override or ())
+    for transform, mech in transforms:
+        try:
+            tr = transform(text, cfg)
+        except (R.RefError, RecursionError):
+            continue
+        t2, o2 = tr if isinstance(tr, tuple) else (tr, None)
+        if t2 == text and not o2:
+            continue
+        try:
+            R.parse(t2)
+        except (R.RefError, RecursionError):
+            continue
+        text = t2
+        ov.update(dict(o2 or ()))
+        used.append((transform, mech))
+    return text, (tuple(sorted(ov.items())) if ov else None), used
+
+
 def evaluate(text: str, ci: int, counts: T.Dict[str, int]) -> T.List[T.Tuple[str, str, dict]]:
-    """All contracts for one (input, configuration index) -> [(mechanism, contract, detail)]."""
+    """All contracts for one (input, configuration index) -> [(mechanism, contract, detail)].
+
+    Verdicts whose mechanism only says WHICH contract failed (generic) go through the differential classifiers: the input
+    (or, for one option, the configuration) is changed so that one suspected root cause is absent; a generic verdict that
+    vanishes is attributed to that root cause.  First one cause at a time (cumulatively), then - for overlapping causes -
+    all remaining ones together followed by leave-one-out reduction.  What is still generic afterwards is reported as is."""
     assert ENV is not None
     cfg = ENV.cfgs[ci]
     out, out2, exc, exc2, rpe = run_real(text, ci, counts)
@@ -314,42 +387,70 @@ def evaluate(text: str, ci: int, counts: T.Dict[str, int]) -> T.List[T.Tuple[str
         return []
     result: T.List[T.Tuple[str, str, dict]] = [(v.mechanism, v.contract, v.detail) for v in vs if not is_generic(v.mechanism)]
     generic = [v for v in vs if is_generic(v.mechanism)]
-    cur_text = text
     scratch: T.Dict[str, int] = {}
-    for transform, mech in DIFFERENTIAL:
+
+    def judge_variant(t: str, ov: Override) -> T.List[C.Verdict]:
+        cfg2 = dict(cfg, **dict(ov)) if ov else cfg
+        o, o2, e1, e2, rp = run_real(t, ci, scratch, ov)
+        return C.judge(t, o, o2, cfg2, e1, e2, rp, scratch)
+
+    def attribute(used: T.Sequence[T.Tuple[T.Any, T.Any]], base_text: str, gone: T.Set[str], vs2: T.Sequence[C.Verdict]) -> None:
+        nonlocal generic
+        first = next(v for v in generic if v.contract in gone)
+        for _tr, mech in used:
+            names = mech(base_text, cfg, gone) if callable(mech) else [mech]
+            if not names:
+                names = ['unattributed:' + first.mechanism]
+            for name in names:
+                counts['differential:' + name] = counts.get('differential:' + name, 0) + 1
+                if name not in {r[0] for r in result}:
+                    result.append((name, first.contract, dict(first.detail, classified_by='differential', generic=first.mechanism)))
+        # verdicts that the transformed input turned into specific ones are kept as they are
+        for v in vs2:
+            if not is_generic(v.mechanism) and v.mechanism not in {r[0] for r in result}:
+                result.append((v.mechanism, v.contract, v.detail))
+        generic = [v for v in vs2 if is_generic(v.mechanism)]
+
+    cur_text, cur_ov = text, None
+    pending = list(DIFFERENTIAL)
+    # (1) one cause at a time, cumulatively
+    for item in list(pending):
         if not generic:
             break
-        try:
-            tr = transform(cur_text, cfg)
-        except R.RefError:
+        t2, ov2, used = _apply([item], cur_text, cfg, cur_ov)
+        if not used:
+            pending.remove(item)
             continue
-        t2, override = tr if isinstance(tr, tuple) else (tr, None)
-        if t2 == cur_text and override is None:
-            continue
-        try:
-            R.parse(t2)
-        except (R.RefError, RecursionError):
-            continue
-        cfg2 = dict(cfg, **dict(override)) if override else cfg
-        o, o2, e1, e2, rp = run_real(t2, ci, scratch, override)
-        vs2 = C.judge(t2, o, o2, cfg2, e1, e2, rp, scratch)
-        if override:
-            # a configuration flip may only explain layout instability (same tree, same comments)
-            if any(v.contract != 'idempotent' for v in generic):
-                continue
-        still = {v.contract for v in vs2 if is_generic(v.mechanism)}
-        gone = {v.contract for v in generic} - still
+        if ov2 != cur_ov and any(v.contract != 'idempotent' for v in generic):
+            continue      # a configuration flip may only explain layout instability (same tree, same comments)
+        vs2 = judge_variant(t2, ov2)
+        gone = {v.contract for v in generic} - {v.contract for v in vs2 if is_generic(v.mechanism)}
         if gone:
-            name = mech(cur_text, cfg, gone) if callable(mech) else mech
-            counts['differential:' + name] = counts.get('differential:' + name, 0) + 1
-            first = next(v for v in generic if v.contract in gone)
-            result.append((name, first.contract, dict(first.detail, classified_by='differential', generic=first.mechanism)))
-            # verdicts that the transformed input turned into specific ones are kept as they are
-            for v in vs2:
-                if not is_generic(v.mechanism) and v.mechanism not in {r[0] for r in result}:
-                    result.append((v.mechanism, v.contract, v.detail))
-            generic = [v for v in vs2 if is_generic(v.mechanism)]
-            cur_text = t2
+            mech = item[1]
+            if callable(mech) and not mech(cur_text, cfg, gone):
+                continue       # the transformation helps, but the input shows none of the listed shapes: not attributed
+            attribute(used, cur_text, gone, vs2)
+            cur_text, cur_ov = t2, ov2
+            pending.remove(item)
+    # (2) overlapping causes: all remaining ones together, then drop the ones that are not needed
+    if generic and len(pending) > 1 and all(v.contract == 'idempotent' for v in generic):
+        t2, ov2, used = _apply(pending, cur_text, cfg, cur_ov)
+        if len(used) > 1:
+            vs2 = judge_variant(t2, ov2)
+            if not any(is_generic(v.mechanism) for v in vs2):
+                needed = list(used)
+                for item in list(used):
+                    trial = [u for u in needed if u is not item]
+                    if not trial:
+                        continue
+                    t3, ov3, used3 = _apply(trial, cur_text, cfg, cur_ov)
+                    vs3 = judge_variant(t3, ov3)
+                    if not any(is_generic(v.mechanism) for v in vs3):
+                        needed = trial
+                t2, ov2, used = _apply(needed, cur_text, cfg, cur_ov)
+                vs2 = judge_variant(t2, ov2)
+                attribute(used, cur_text, {v.contract for v in generic}, vs2)
+                cur_text = t2
     for v in generic:
         d = dict(v.detail)
         if cur_text != text:
@@ -467,7 +568,8 @@ def one_case(acc: Acc, text: str, ci: int, origin: str, minimise_unknown: bool =
             t = text
             if mech not in KNOWN and minimise_unknown and len(text) < MAX_TEXT:
                 t = minimise(text, ci, mech)
-            ws.append({'text': t[:MAX_TEXT], 'text_truncated': len(t) > MAX_TEXT, 'config': cfg_brief(ENV.cfgs[ci]), 'contract': contract,
+            ws.append({'text': t[:MAX_TEXT], 'text_truncated': len(t) > MAX_TEXT, 'config': cfg_brief(ENV.cfgs[ci]),
+                       'written_keys': ENV.entries[ci]['written'], 'contract': contract,
                        'detail': detail, 'origin': origin, 'kind': 'format'})
 
 
@@ -562,6 +664,9 @@ PROBES: T.List[T.Tuple[str, T.Dict[str, T.Any], T.Tuple[str, ...]]] = [
     ("x = (a and (b or c))\n", {'max_line_length': 0}, ('indentation-unstable-inside-multiline-parentheses',)),
     ("f(a,)\n", {'no_single_comma_function': True}, ('single-argument-call-relayouted-on-second-pass',)),
     ("x = o.m(a,\n)\n", {'no_single_comma_function': True}, ('single-argument-call-relayouted-on-second-pass',)),
+    ("x = 1 \\\n", {}, ('continuation-at-end-of-statement-gains-a-line-per-pass',)),
+    ("foreach x : d\nendforeach\\\n", {}, ('continuation-at-end-of-statement-gains-a-line-per-pass',)),
+    ("f('''\\''', '''/#''' # c\n , [1])\n", {}, ('multiline-string-simplified-changes-escapes',)),
     ("x = f([ \\\n 'a'])\n", {}, ('continuation-after-open-bracket-relayouted-on-second-pass',)),
     ("x = f(g( \\\n 'a'))\n", {}, ('continuation-after-open-bracket-relayouted-on-second-pass',)),
     ("v = files([#c\n])[[srcs, 'aaaaaaaaaaaaaaaaaaaaaaaaaaaaaaaaaaaaaa']].e()\n", {'max_line_length': 30},
@@ -741,12 +846,15 @@ def cli_case(acc: Acc, idx: int, seed: int, root: str) -> None:
         acc.add('contract:cli-check-status')
         if r.rc not in (0, 1) or r.traceback:
             fail('cli-check-crashed', r.brief())
-        elif (r.rc == 1) != would_change_text:
-            fail('cli-check-status-differs-from-formatter', {'rc': r.rc, 'formatter_would_change_text': would_change_text})
-        elif would_change_bytes and not would_change_text and r.rc == 0:
-            # the text is already formatted, but --inplace would still rewrite the line endings
+        elif (r.rc == 1) != would_change_bytes:
+            # "report a difference iff formatting would change the file": the file = its bytes after --inplace
             acc.add('contract:cli-check-vs-inplace-bytes')
-            fail('check-only-ignores-line-endings', {'rc': r.rc, 'end_of_line': eol_name, 'file_eol': variant})
+            if r.rc == 0 and not would_change_text:
+                # the text is already formatted, but --inplace would still rewrite the line endings
+                fail('check-only-ignores-line-endings', {'rc': r.rc, 'end_of_line': eol_name, 'file_eol': variant})
+            else:
+                fail('cli-check-status-differs-from-formatter', {'rc': r.rc, 'formatter_would_change_text': would_change_text,
+                                                                  'inplace_would_change_bytes': would_change_bytes})
         if read(src) != data:
             fail('cli-check-modified-the-file', {})
         if mode == 'd':
@@ -842,6 +950,7 @@ def cli_recursive(acc: Acc, idx: int, seed: int) -> None:
     acc.add('cases:cli')
     acc.add('cli:mode-recursive')
     any_change = any(want[r] != files[r] for r in reachable)
+    any_change_bytes = any(want[r].replace('\n', eol).encode('utf-8') != files[r].encode('utf-8') for r in reachable)
     acc.keys.append(common.digest(['clirec', ci, [want[r] != files[r] for r in reachable]]))
     wit = {'kind': 'cli-recursive', 'config': cfg_brief(ENV.cfgs[ci]), 'files': {k: v[:3000] for k, v in files.items()}, 'origin': f'clirec:{idx}'}
 
@@ -856,8 +965,11 @@ def cli_recursive(acc: Acc, idx: int, seed: int) -> None:
     acc.add('contract:cli-recursive-check-status')
     if r.rc not in (0, 1) or r.traceback:
         fail('cli-recursive-check-crashed', r.brief())
-    elif (r.rc == 1) != any_change:
-        fail('cli-recursive-check-status-differs-from-formatter', {'rc': r.rc, 'would_change': {k: want[k] != files[k] for k in reachable}})
+    elif (r.rc == 1) != any_change_bytes:
+        if r.rc == 0 and not any_change:
+            fail('check-only-ignores-line-endings', {'rc': r.rc, 'recursive': True})
+        else:
+            fail('cli-recursive-check-status-differs-from-formatter', {'rc': r.rc, 'would_change': {k: want[k] != files[k] for k in reachable}})
     r = runner.meson(argv + ['-r', '-i'], cwd=sub, timeout=60)
     acc.add('contract:cli-recursive-inplace')
     if r.rc != 0 or r.traceback:
@@ -923,11 +1035,9 @@ def cli_probes(acc: Acc) -> None:
             fail('cli-inplace-bytes-differ-from-formatter')
         if rq.rc not in (0, 1):
             fail('cli-check-crashed')
-        elif (rq.rc == 1) != (want != code):
-            fail('cli-check-status-differs-from-formatter')
         elif (rq.rc == 1) != (after != before):
             acc.add('contract:cli-check-vs-inplace-bytes')
-            fail('check-only-ignores-line-endings' if want == code else 'cli-check-status-differs-from-inplace-effect')
+            fail('check-only-ignores-line-endings' if (want == code and rq.rc == 0) else 'cli-check-status-differs-from-inplace-effect')
         import shutil
         shutil.rmtree(sub, ignore_errors=True)
 
@@ -953,14 +1063,14 @@ def worker_cli(task: T.Tuple[int, int, int]) -> dict:
     return acc.data()
 
 
-DEADLINE = [0.0]
+DEADLINE = [0.0, 0.0]     # generated batches / corpus batches (the corpus gets 30% more: it is finite and wanted once)
 
 
 def dispatch(task: T.Tuple[str, T.Any]) -> dict:
     kind, payload = task
     t0 = time.time()
     c0 = time.process_time()
-    if kind in ('gen', 'corpus') and time.time() > DEADLINE[0]:
+    if (kind == 'gen' and time.time() > DEADLINE[0]) or (kind == 'corpus' and time.time() > DEADLINE[1]):
         # the time budget of the tier is used up: the batch is counted, not run
         d = Acc().data()
         d['counts']['budget:' + kind + '-batches-not-run'] = 1
@@ -1009,7 +1119,7 @@ def replay(chk: common.Check, path: str) -> int:
     root = common.scratch_dir('c16')
     with open(os.path.join(root, '.editorconfig'), 'w', encoding='utf-8') as f:
         f.write('root = true\n')
-    ENV = Env(root, [dict(G.DEFAULT_CONFIG), cfg], random.Random(0))
+    ENV = Env(root, [dict(G.DEFAULT_CONFIG), cfg], random.Random(0), [None, w.get('written_keys')])
     counts: T.Dict[str, int] = {}
     res = evaluate(w['text'], 1, counts)
     out, out2, exc, exc2, rpe = run_real(w['text'], 1, {})
@@ -1057,6 +1167,7 @@ def main() -> int:
     # one pool; probes and CLI first, then generated batches interleaved with corpus batches.  Batches that start after
     # the deadline return immediately and are counted (budget:*), so the tier is capped by count AND time.
     DEADLINE[0] = chk.t0 + budget
+    DEADLINE[1] = chk.t0 + budget * 1.3
     fixed = [t for t in tasks if t[0] in ('probes', 'cli')]
     gen = [t for t in tasks if t[0] == 'gen']
     cor = [t for t in tasks if t[0] == 'corpus']
@@ -1064,9 +1175,9 @@ def main() -> int:
     step = max(1, len(gen) // max(1, len(cor)))
     gi = 0
     for c in cor:
+        queue.append(c)
         queue += gen[gi:gi + step]
         gi += step
-        queue.append(c)
     queue += gen[gi:]
     results: T.List[dict] = common.pmap(dispatch, queue, chk.jobs)
 
@@ -1100,7 +1211,7 @@ def main() -> int:
                  'pass:TrimWhitespaces.visit_StringNode', 'pass:TrimWhitespaces.visit_FunctionNode',
                  'pass:ArgumentFormatter.visit_ArgumentNode', 'pass:ComputeLineLengths.visit_ArgumentNode', 'rounds:2'):
         chk.require(name, 1)
-    chk.require('cases:gen', 1000 if quick else 20000)
+    chk.require('cases:gen', 600 if quick else 10000)
     chk.notes['cpu_seconds_by_workload'] = {k: round(v, 1) for k, v in walls.items()}
     cells = {
         'configurations': len(ENV.cfgs),
